@@ -488,7 +488,11 @@ theorem C04_abi_override_single (a : Abi) (clang : ClangAbi) : chooseAbi [(a, tr
 theorem C04_abi_gate_sound (feat : AbiFeature → Bool) (v : Bool) (x y : ClangAbi)
     (h : gateAbi feat v x = some y) : y = x := by
   cases x with
-  | unknown => simp [gateAbi] at h; exact h.symm
+  | unknown =>
+    simp only [gateAbi] at h
+    split at h
+    · simp at h
+    · simp at h; exact h.symm
   | known a =>
     simp only [gateAbi] at h
     split at h
@@ -499,6 +503,21 @@ theorem C04_abi_gate_sound (feat : AbiFeature → Bool) (v : Bool) (x y : ClangA
       · simp at h
       · simp at h; exact h.symm
 
+/-- source obligation (regenerated `Generated/Abi.lean`): a calling convention Rust has no name for is
+answered with `Err(UnsupportedAbi)`.  With it, `Function::codegen`'s `Ok(ClangAbi::Unknown(_)) => panic!`
+arm and `ToTokens for ClangAbi`'s panic are unreachable (C12). -/
+theorem C04_abi_unknown_rejected : abiUnknownRejected = true := by decide
+
+/-- whatever the overrides, features and variadicity: the ABI handed to code generation is a known one -/
+theorem C04_abi_never_unknown (ovs : List (Abi × Bool)) (feat : AbiFeature → Bool) (v : Bool) (clang : ClangAbi) :
+    sigAbi ovs feat v clang ≠ some .unknown := by
+  intro h
+  have hx := C04_abi_gate_sound feat v _ _ h
+  unfold sigAbi at h
+  rw [← hx] at h
+  simp [gateAbi, C04_abi_unknown_rejected] at h
+
+example : sigAbi [] (fun _ => true) false .unknown = none := by decide
 example : sigAbi [(.CUnwind, true)] (fun _ => true) false (.known .C) = some (.known .CUnwind) := by decide
 example : sigAbi [] (fun _ => false) false (.known .Vectorcall) = none := by decide
 example : sigAbi [] (fun _ => true) true (.known .Win64) = none := by decide
